@@ -367,6 +367,7 @@ func runC07(c *vx.Ctx) {
 	p.Bound("mutations", len(muts))
 	seqs := c07Sequences(maxLen)
 	var idx int64
+outer:
 	for _, pre := range prefixes {
 		for _, seq := range seqs {
 			idx++
@@ -375,7 +376,7 @@ func runC07(c *vx.Ctx) {
 			}
 			if c.Expired() {
 				p.Incomplete("deadline")
-				return
+				break outer
 			}
 			cs := c07Case{Prefix: pre, Mempool: seq}
 			c07RunCase(c, p, cs, muts)
@@ -384,6 +385,7 @@ func runC07(c *vx.Ctx) {
 	if c.Shard == 0 {
 		p.States = int64(len(prefixes) * len(seqs))
 	}
+	c07MapOrder(c)
 }
 
 func c07RunCase(c *vx.Ctx, p *vx.Part, cs c07Case, muts []c07Mut) {
@@ -474,6 +476,9 @@ func c07Replay(cs c07Case, wantKey string) string {
 }
 
 func replayC07(c *vx.Ctx, v vx.Violation) string {
+	if v.Part == "map-order" {
+		return replayViaVqm(v)
+	}
 	core.VScaleParams(core.VR1)
 	raw, _ := jsonMarshal(v.Replay)
 	var cs c07Case
